@@ -96,13 +96,13 @@ WFE(t, names) ==
     [] OTHER -> FALSE
 WFF(t) == IF t[1] = "Let" THEN Len(t) = 4 /\ WFE(t[3], {}) /\ WFE(t[4], {t[2]}) ELSE WFE(t, {})
 
-RECURSIVE Has(_, _)
 IsStrConst(t) == t[1] = "Const" /\ Tag(t[2]) = "str"
 Test(t, what) ==
   CASE what = "str"    -> IsStrConst(t)
     [] what = "fmt"    -> t[1] = "Fmt"
     [] what = "dollar" -> IsStrConst(t) /\ \E i \in 1..Len(Pay(t[2])) : Pay(t[2])[i] = 36
     [] what = "nl"     -> IsStrConst(t) /\ \E i \in 1..Len(Pay(t[2])) : Pay(t[2])[i] = 10
+RECURSIVE Has(_, _)
 Has(t, what) ==
   \/ Test(t, what)
   \/ LET k == t[1] IN
@@ -157,7 +157,7 @@ ColIs(cells, exp, n) == Len(cells) = n /\ \A r \in 1..n : ValOk(exp[r], cells[r]
 \* C19.meaning: the cell of F is the meaning of the tree, in every row
 Meaning(inp, out, E) == ~HasTree(inp) \/ (out.f_ok /\ ColIs(out.s1.F, E.f, E.n))
 \* the same question asked of Python's own result: is the specification / the renderer right?
-PyAgrees(inp, out) == ~HasTree(inp) \/ LET E == Expect(inp, FALSE) IN ColIs(out.py, E.f, E.n)
+PyAgreesE(inp, out, E) == ~HasTree(inp) \/ ColIs(out.py, E.f, E.n)
 
 \* C19.ok: the bundle that sets X's formula succeeds - or it is rejected and nothing changed
 BundleOk(inp, out) == out.x_ok \/ (out.same /\ out.s2 = out.s1)
@@ -196,13 +196,13 @@ Usable(inp, out, E) ==
   /\ ColIs(out.s4.X, E.fix, E.m)
   /\ ColIs(out.s4.R, E.fix, E.m)
 
-FClauses(inp, out) ==
-  LET E == Expect(inp, out.add_ok) IN
+FClausesE(inp, out, E) ==
   (IF Meaning(inp, out, E) THEN {} ELSE {"C19.meaning"})
   \cup (IF BundleOk(inp, out) THEN {} ELSE {"C19.ok"})
   \cup (IF Others(inp, out, E) THEN {} ELSE {"C19.others"})
   \cup (IF Loc(inp, out, E) THEN {} ELSE {"C19.loc"})
   \cup (IF Usable(inp, out, E) THEN {} ELSE {"C19.usable"})
+FClauses(inp, out) == FClausesE(inp, out, Expect(inp, out.add_ok))
 FOk(inp, out) == FClauses(inp, out) = {}
 
 \* ---- reference outcome (non-vacuity: the relation is satisfiable on every input) -----------------
